@@ -748,10 +748,10 @@ impl Expression {
                 match ps.peek::<0>() {
                     Some(d) if ('0'..='7').contains(&d) => {
                         // parse as OCT
-                        let mut num = 0i64;
+                        let mut num = RadixNumber::new(3);
                         loop {
-                            let d = ps.next().unwrap() as i64 - '0' as i64;
-                            num = num * 8 + d;
+                            let d = ps.next().unwrap() as u32 - '0' as u32;
+                            num.push(d);
                             let Some(peek) = ps.peek::<0>() else { break };
                             if !is_ident_char(peek) {
                                 break;
@@ -763,15 +763,12 @@ impl Expression {
                                 return None;
                             }
                         }
-                        return Some(Box::new(Expression::LitInt {
-                            value: num,
-                            location: pos..ps.position(),
-                        }));
+                        return Some(Box::new(num.into_expression(pos..ps.position())));
                     }
                     Some('x') => {
                         // parse as HEX
                         ps.next(); // 'x'
-                        let mut num = 0i64;
+                        let mut num = RadixNumber::new(4);
                         let peek = ps.peek::<0>()?;
                         if !('0'..='9').contains(&peek)
                             && !('a'..='z').contains(&peek)
@@ -803,7 +800,7 @@ impl Expression {
                                 'f' | 'F' => 15,
                                 _ => unreachable!(),
                             };
-                            num = num * 16 + d;
+                            num.push(d);
                             let Some(peek) = ps.peek::<0>() else { break };
                             if !is_ident_char(peek) {
                                 break;
@@ -818,10 +815,7 @@ impl Expression {
                                 return None;
                             }
                         }
-                        return Some(Box::new(Expression::LitInt {
-                            value: num,
-                            location: pos..ps.position(),
-                        }));
+                        return Some(Box::new(num.into_expression(pos..ps.position())));
                     }
                     Some('e') | Some('.') | Some('8') | Some('9') => {
                         // do nothing
@@ -842,7 +836,8 @@ impl Expression {
             }
 
             // parse as normal DEC
-            let mut int = Some(0);
+            let mut int = Some(0i64);
+            let mut int_overflow = false;
             loop {
                 let next = ps.next().unwrap();
                 if next == 'e' {
@@ -876,7 +871,10 @@ impl Expression {
                     // '0'..='9'
                     if let Some(x) = int.as_mut() {
                         let d = next as i64 - '0' as i64;
-                        *x = *x * 10 + d;
+                        match x.checked_mul(10).and_then(|x| x.checked_add(d)) {
+                            Some(v) => *x = v,
+                            None => int_overflow = true,
+                        }
                     }
                 }
                 let Some(peek) = ps.peek::<0>() else { break };
@@ -892,7 +890,8 @@ impl Expression {
                     return None;
                 }
             }
-            let num = match int {
+            // an integer that does not fit in `i64` is read as a float, like JavaScript does
+            let num = match int.filter(|_| !int_overflow) {
                 None => {
                     let Ok(num) = ps.code_slice(start_index..ps.cur_index()).parse::<f64>() else {
                         ps.add_warning_at_current_position(
@@ -1085,6 +1084,67 @@ parse_left_to_right!(parse_bit_xor, parse_bit_and, bit_xor => BitXor);
 parse_left_to_right!(parse_bit_or, parse_bit_xor, bit_or => BitOr);
 parse_left_to_right!(parse_logic_and, parse_bit_or, logic_and => LogicAnd);
 parse_left_to_right!(parse_logic_or, parse_logic_and, logic_or => LogicOr, nullish_coalescing => NullishCoalescing);
+
+/// An integer literal in a power-of-two radix.
+///
+/// It is exact while it fits in `i64` ;
+/// otherwise it is the correctly rounded `f64` (the way JavaScript reads the same literal).
+struct RadixNumber {
+    bits_per_digit: u32,
+    int: Option<i64>,
+    mantissa: u64,
+    dropped_bits: u32,
+    sticky: bool,
+}
+
+impl RadixNumber {
+    fn new(bits_per_digit: u32) -> Self {
+        Self {
+            bits_per_digit,
+            int: Some(0),
+            mantissa: 0,
+            dropped_bits: 0,
+            sticky: false,
+        }
+    }
+
+    fn push(&mut self, digit: u32) {
+        if let Some(x) = self.int {
+            let next = x
+                .checked_mul(1 << self.bits_per_digit)
+                .and_then(|x| x.checked_add(digit as i64));
+            if let Some(next) = next {
+                self.int = Some(next);
+                self.mantissa = next as u64;
+                return;
+            }
+            self.int = None;
+        }
+        for i in (0..self.bits_per_digit).rev() {
+            let bit = ((digit >> i) & 1) as u64;
+            if self.dropped_bits == 0 && (self.mantissa >> 63) == 0 {
+                self.mantissa = (self.mantissa << 1) | bit;
+            } else {
+                self.dropped_bits = self.dropped_bits.saturating_add(1);
+                self.sticky = self.sticky || bit == 1;
+            }
+        }
+    }
+
+    fn into_expression(self, location: Range<Position>) -> Expression {
+        match self.int {
+            Some(value) => Expression::LitInt { value, location },
+            None => {
+                let m = self.mantissa | (self.sticky as u64);
+                let exp = self.dropped_bits.min(i32::MAX as u32) as i32;
+                Expression::LitFloat {
+                    value: (m as f64) * 2f64.powi(exp),
+                    location,
+                }
+            }
+        }
+    }
+}
 
 struct ParseOperator();
 
